@@ -233,6 +233,11 @@ func init() {
 				k = 80
 			}
 			for j := 0; j < k; j++ {
+				// a network that starts with one or two validators and grows through
+				// several joins: every validator set is derived from the previous one
+				cs = append(cs, CaseSpec{Kind: "growth", P: map[string]int64{"n": int64(1 + j%2), "joins": int64(3 + j%3), "steps": int64(500 + 60*(j%4))}, S: map[string]string{"shape": "uniform"}})
+			}
+			for j := 0; j < k; j++ {
 				// a validator whose application sits behind the socket proxy and is
 				// unreachable for a while, twice
 				cs = append(cs, CaseSpec{Kind: "sockapp", P: map[string]int64{"n": int64(1 + j%4), "steps": int64(260 + 40*(j%4))}, S: map[string]string{"shape": "uniform"}})
@@ -242,6 +247,13 @@ func init() {
 		Run: func(cs CaseSpec) *CaseResult {
 			if cs.Kind == "sockapp" {
 				return runSockApp(cs)
+			}
+			if cs.Kind == "growth" {
+				res := runHistory(cs, func(nw *Network) []Monitor { return []Monitor{NewMonSignatures()} }, nil)
+				if res.Counters["join_completed"] < 2 {
+					res.Digests = nil
+				}
+				return res
 			}
 			return runByzHistory(cs, func(nw *Network, ps []*Puppet) []Monitor {
 				for _, p := range ps {
